@@ -13,6 +13,7 @@ mod choices;
 mod common;
 mod des;
 mod fam_block;
+mod fam_directed;
 mod fam_expiry;
 mod fam_hostile;
 mod fam_isolation;
@@ -62,33 +63,33 @@ fn props() -> Vec<PropCfg> {
     vec![
         PropCfg {
             id: "C08",
-            family: "blockwise",
+            family: "blockwise+blockwise+directed",
             level: "exploration",
             quick_runs: 300_000,
             thorough_runs: 6_000_000,
-            rule: "One evaluation = one seeded simulated run of the `blockwise` family (1-4 clients, 1-3 transfers each, budget drawn relative to the measured overheads, swarm-drawn drop/dup/delay faults, client retransmission timers on the simulated clock). Non-trivial = a download that the ground-truth premise classifier placed inside C08's premise (blocks 0,1,2,... arrived once each in order, contiguous on its key, budget in [overhead+28,1280]) and that took >= 2 exchanges; distinct = distinct abstract tuples (exchange count, block size chosen, body length class mod block size, (budget-overhead-28)/8 bucket, option-set size, early-negotiation exponent, reduction exponent, token length), counted by 64-bit hash.",
+            rule: "Two of three runs are of the `blockwise` family, one of three of the `directed` family (one client, fault-free link, block sizes 16/32/64, every body length 0..3*size+1, budgets right above the smallest admissible one and around exactly admitting the block size, every client preference, duplicate patterns, abandoned prefixes, a second transfer on the same key); same oracles. One evaluation = one seeded simulated run. `blockwise`: (1-4 clients, 1-3 transfers each, budget drawn relative to the measured overheads, swarm-drawn drop/dup/delay faults, client retransmission timers on the simulated clock). Non-trivial = a download that the ground-truth premise classifier placed inside C08's premise (blocks 0,1,2,... arrived once each in order, contiguous on its key, budget in [overhead+28,1280]) and that took >= 2 exchanges; distinct = distinct abstract tuples (exchange count, block size chosen, body length class mod block size, (budget-overhead-28)/8 bucket, option-set size, early-negotiation exponent, reduction exponent, token length), counted by 64-bit hash.",
             assumptions: &["the stub server loop drives the library the way README.md and examples/server.rs show", "client stubs and oracles use an independent reference codec (encoder, parser, block option codec), not the crate's", "sampling: a clean batch is evidence, not proof", "bodies <= 20000 bytes, <= 4095 blocks"],
             real: REAL_BLOCK,
             stub: STUB_BLOCK,
         },
         PropCfg {
             id: "C09",
-            family: "blockwise",
+            family: "blockwise+blockwise+directed",
             level: "exploration",
             quick_runs: 300_000,
             thorough_runs: 6_000_000,
-            rule: "One evaluation = one seeded simulated run of the `blockwise` family. Non-trivial = an upload inside C09's premise per the ground-truth classifier (its blocks arrived in order, each >= 1 times consecutively, contiguous on its key, only well-shaped transfers incl. abandoned in-order prefixes before it, budget admits the client's block size) with >= 2 block deliveries; distinct = distinct abstract delivery histories (per delivery: duplicate?, more flag, size exponent; total deliveries; clean-or-abandoned-prefix before), counted by 64-bit hash.",
+            rule: "Two of three runs are of the `blockwise` family, one of three of the boundary-dense `directed` family (see C08); same oracles. One evaluation = one seeded simulated run. Non-trivial = an upload inside C09's premise per the ground-truth classifier (its blocks arrived in order, each >= 1 times consecutively, contiguous on its key, only well-shaped transfers incl. abandoned in-order prefixes before it, budget admits the client's block size) with >= 2 block deliveries; distinct = distinct abstract delivery histories (per delivery: duplicate?, more flag, size exponent; total deliveries; clean-or-abandoned-prefix before), counted by 64-bit hash.",
             assumptions: &["the stub server loop drives the library the way README.md and examples/server.rs show", "client stubs and oracles use an independent reference codec (encoder, parser, block option codec), not the crate's", "sampling: a clean batch is evidence, not proof", "bodies <= 5000 bytes"],
             real: REAL_BLOCK,
             stub: STUB_BLOCK,
         },
         PropCfg {
             id: "C10",
-            family: "blockwise",
+            family: "blockwise+blockwise+directed",
             level: "exploration",
             quick_runs: 300_000,
             thorough_runs: 6_000_000,
-            rule: "One evaluation = one seeded simulated run of the `blockwise` family; the C10 clauses (pow2, le-client, fits, exact, unfragmented-fits) are evaluated inline on every reply the handler produced whose own premise holds (budget in [overhead+28,1280], no application Block2, client never raised the size). Non-trivial = in-premise transfers with >= 2 exchanges; distinct as for C08/C09 (the tuple includes the chosen size and the budget-overhead bucket).",
+            rule: "One evaluation = one seeded simulated run of the `blockwise` (2 of 3) or the boundary-dense `directed` family (1 of 3, see C08); the C10 clauses (pow2, le-client, fits, exact, unfragmented-fits) are evaluated inline on every reply the handler produced whose own premise holds (budget in [overhead+28,1280], no application Block2, client never raised the size). Non-trivial = in-premise transfers with >= 2 exchanges; distinct as for C08/C09 (the tuple includes the chosen size and the budget-overhead bucket).",
             assumptions: &["overhead = encoded size of the message without payload and marker, as the handler measures it", "sampling: a clean batch is evidence, not proof"],
             real: REAL_BLOCK,
             stub: STUB_BLOCK,
@@ -229,6 +230,7 @@ fn run_family(family: &str, ch: &mut Ch, verbose: bool) -> Result<Outcome, Strin
         let mut o = run_family(parts[i], ch, verbose)?;
         o.stats.hit(match parts[i] {
             "blockwise" => "family.blockwise",
+            "directed" => "family.directed",
             "wire" => "family.wire",
             "hostile" => "family.hostile",
             "isolation" => "family.isolation",
@@ -240,6 +242,7 @@ fn run_family(family: &str, ch: &mut Ch, verbose: bool) -> Result<Outcome, Strin
     }
     match family {
         "blockwise" => Ok(fam_block::run(ch, verbose)),
+        "directed" => Ok(fam_directed::run(ch, verbose)),
         "wire" => Ok(fam_wire::run(ch, verbose)),
         "hostile" => Ok(fam_hostile::run(ch, verbose)),
         "sink" => Ok(fam_sink::run(ch, verbose)),
